@@ -134,15 +134,31 @@ def gen_metadata(rng):
 
 # ---------------------------------------------------------------- strings
 
+def merge_comment_lines(rng, s):
+    """put several `::key value` pairs on one comment line, add plain comments"""
+    lines = s.split('\n')
+    out = []
+    for l in lines:
+        if out and l.startswith('# ::') and out[-1].startswith('#') and maybe(rng, 0.6):
+            out[-1] = out[-1] + rng.choice([' ', '  ', '\t']) + l[2:]
+        else:
+            out.append(l)
+    if maybe(rng, 0.2):
+        out.insert(0, rng.choice(['# a comment', '#', '# :: ', '# ::k', '# x ::y z', '#::a b']))
+    return '\n'.join(out)
+
+
 def gen_penman_string(rng, wf=True):
     """format a random tree with random indentation, then perturb spacing"""
     t = gen_tree(rng, wf=wf)
     indent = rng.choice([None, -1, -1, 0, 1, 2, 3, 8])
     try:
-        s = penman.format(penman.Tree(t, metadata=gen_metadata(rng) if maybe(rng, 0.3) else {}),
+        s = penman.format(penman.Tree(t, metadata=gen_metadata(rng) if maybe(rng, 0.4) else {}),
                           indent=indent, compact=maybe(rng, 0.3))
     except Exception:  # noqa: BLE001
         s = '(a / b)'
+    if s.startswith('#') and maybe(rng, 0.5):
+        s = merge_comment_lines(rng, s)
     return s
 
 
